@@ -206,9 +206,18 @@ func (v *Version) String() string {
 // Compare compares this version with another Alpine version
 func (v *Version) Compare(other *Version) int {
 	// Handle invalid versions (no numeric components) - use string comparison
-	if v.numeric == nil || other.numeric == nil {
+	if v.numeric == nil && other.numeric == nil {
 		// original keeps surrounding whitespace, which is not part of the version
 		return strings.Compare(strings.TrimSpace(v.original), strings.TrimSpace(other.original))
+	}
+	// Only one side is invalid: a string comparison against a structured
+	// version is not transitive (1.10 < 1.5xy < 1.9 < 1.10), so invalid
+	// versions sort after every structured version.
+	if v.numeric == nil {
+		return 1
+	}
+	if other.numeric == nil {
+		return -1
 	}
 
 	// 1. Compare numeric components (leading zeros are ignored - use actual numeric values)
